@@ -64,12 +64,20 @@ def hygiene():
     pat = re.compile(r'\b(Admitted|admit|Axiom|Axioms|Parameter|Parameters|Conjecture|Abort All|'
                      r'Admit Obligations|bypass_check|Unset Guard Checking|Unset Positivity Checking|'
                      r'Unset Universe Checking|type-in-type|impredicative-set)\b')
+    listed = set()
+    for line in open(os.path.join(COQ, '_CoqProject')):
+        line = line.strip()
+        if line.endswith('.v'):
+            listed.add(os.path.normpath(os.path.join(COQ, line)))
     for root, _, files in os.walk(COQ):
         if os.path.basename(root) == 'cases':
             continue
         for fn in files:
             if fn.endswith('.v'):
                 p = os.path.join(root, fn)
+                # the development = files of _CoqProject + Gen/ + GenAgree/ (work in progress elsewhere is not built)
+                if os.path.normpath(p) not in listed and os.path.basename(root) not in ('Gen', 'GenAgree'):
+                    continue
                 txt = open(p, errors='replace').read()
                 txt = re.sub(r'\(\*.*?\*\)', '', txt, flags=re.S)   # comments may mention the words
                 for m in pat.finditer(txt):
